@@ -31,7 +31,10 @@ RULE = ('a FIXED corpus of programs (hand-written snippets covering every node t
         'shapes (every entry of _PUT_SLICE_HANDLERS incl. empty and tight forms such as `lambda: 0`, `lambda*a: 0`, `f()`, '
         '`class C: pass`), deletes every span, puts two elements at once, continues with a second step, and runs every '
         'statement-list operation on blocks whose statements carry trailing semicolons, comments and multi-byte text in '
-        'multi-line, joined and header-line layouts; same CPython judge. distinct = distinct (program, step) or product case; '
+        'multi-line, joined and header-line layouts; every primitive field (identifiers incl. alias name / asname, module, '
+        'level, keyword.arg, handler / pattern names, type parameter names, operators, constants) of every node of ~80 '
+        'adversarial sources (names containing keywords as substrings, blanks and continuations around dots and `as`, '
+        'multi-byte text) is set to every value of a small alphabet; same CPython judge. distinct = distinct (program, step) or product case; '
         'non-trivial = the edit succeeded and changed the source')
 TRUSTED = ['modelled (C01b, Pfst/Sep.lean, tied by harness/c01b.py): FST._trail_sep, _maybe_ins_sep, _is_delimited_seq, '
            '_maybe_add_singleton_comma, _fix_Tuple / _fix_undelimited_seq / _delimit_node (source effect; tree decisions '
@@ -308,13 +311,29 @@ def sweep(ctx):
                 if 'fail' in r:
                     ctx.fail(c01_targets.signature(r), f"{r['op']} on {r['cls']}.{r['field']} of {r['src']!r} -> {r.get('after')!r}: {r['fail'][:200]}", r)
     ctx.notes['targeted_successful_ops'] = tn
+    # primitive fields (identifiers, operators, constants) of every node of adversarial sources set to every value of a
+    # small alphabet through attribute assignment
+    pn = 0
+    for lst in pmap(c01_targets.run_prim_case, c01_targets.prim_cases()):
+        for r in lst:
+            if 'setup_error' in r:
+                ctx.brk('harness', 'c01_targets prim set-up', str(r)[:200])
+            elif 'raised' in r:
+                ctx.tally('prim_raised', f"{r['cls']}.{r['field']}:{r['raised']}")
+            else:
+                pn += 1
+                ctx.count(('p', r['case'][1], r['node'], r['field'], r['vi']), True)
+                ctx.tally('prim_field', f"{r['cls']}.{r['field']}")
+                if 'fail' in r:
+                    ctx.fail(c01_targets.prim_signature(r), f"{r['cls']}.{r['field']} = {r['value']} on {r['src']!r} -> {r.get('after')!r}: {r['fail'][:200]}", r)
+    ctx.notes['primitive_field_sets'] = pn
     # witnesses of REPAIRED findings are regression inputs: a 'fixed' entry suppresses nothing, so a witness that fails again
     # (repair reverted or not yet applied) is reported under its own signature
     import framework
     nfixed = 0
     for e in framework.load_known(ID):
         w = e.get('witness')
-        if e.get('kind') != 'fixed' or not isinstance(w, dict) or 'history' not in w:
+        if e.get('kind') != 'fixed' or not isinstance(w, dict) or ('history' not in w and 'case' not in w):
             continue
         nfixed += 1
         tmp = framework.Ctx(ID, ctx.tier, ctx.seed)
@@ -366,6 +385,12 @@ def check_known(ctx, entry):
     """replay the witness of a listed finding: while it still fails it is reported (KNOWN-FINDING line)"""
     from fst import FST
     w = entry['witness']
+    if 'case' in w:
+        import c01_targets
+        d = c01_targets.replay_prim(w) if w['case'][0] == 'p' else c01_targets.replay(w)
+        if d:
+            ctx.fail(entry['id'], entry['what'], w)
+        return
     root = FST(w['src'], 'exec')
     for rec in w['history']:
         try:
@@ -393,9 +418,9 @@ def replay(ctx, data):
     w = data.get('witness')
     if not w:
         return
-    if 'case' in w:                 # a witness of the targeted product sweep
+    if 'case' in w:                 # a witness of the targeted product sweeps
         import c01_targets
-        d = c01_targets.replay(w)
+        d = c01_targets.replay_prim(w) if w['case'][0] == 'p' else c01_targets.replay(w)
         if d:
             ctx.fail('replay', d, w)
         return
